@@ -591,8 +591,22 @@ pub fn float_subjects(tier: Tier, out: &mut Vec<Subj>) {
         d.sans = vec![San::With(UFn::CClamp01, Spell::Path)];
         d.validation = Validation::Std(vec![Vd::Finite, Vd::Greater(Bound::lit(Val::f64(0.25)))]);
         d.const_fn = cf;
-        d.derives = vec![Tr::Debug, Tr::Clone, Tr::Copy, Tr::PartialEq, Tr::TryFrom, Tr::Into];
+        d.derives = vec![Tr::Debug, Tr::Clone, Tr::Copy, Tr::PartialEq, Tr::Eq, Tr::PartialOrd, Tr::Ord, Tr::TryFrom, Tr::Into, Tr::FromStr, Tr::Display, Tr::Deserialize, Tr::Serialize];
         out.push(Subj { decl: d, tag: format!("float/f64/const_fn={cf}"), serde_full: false });
+    }
+    for cf in [false, true] {
+        for bounded in [false, true] {
+            let mut d = Decl::new("X", Inner::F32);
+            let mut vs = vec![Vd::Finite];
+            if bounded {
+                vs.insert(0, Vd::GreaterOrEqual(Bound::lit(Val::f32(-1.0))));
+                vs.push(Vd::Less(Bound { v: Val::f32(1.0), form: Form::Const }));
+            }
+            d.validation = Validation::Std(vs);
+            d.const_fn = cf;
+            d.derives = vec![Tr::Debug, Tr::Clone, Tr::Copy, Tr::PartialEq, Tr::Eq, Tr::PartialOrd, Tr::Ord, Tr::TryFrom, Tr::Into, Tr::FromStr, Tr::Display];
+            out.push(Subj { decl: d, tag: format!("float/f32/const_fn={cf}/finite"), serde_full: false });
+        }
     }
     arbitrary_float_subjects(tier, out);
 }
@@ -643,7 +657,7 @@ pub fn arbitrary_float_subjects(tier: Tier, out: &mut Vec<Subj>) {
         let mut d = Decl::new("X", if is32 { Inner::F32 } else { Inner::F64 });
         d.validation = Validation::Std(vec![Vd::Finite]);
         d.derives = vec![Tr::Debug, Tr::Clone, Tr::Copy, Tr::PartialEq, Tr::Eq, Tr::PartialOrd, Tr::Ord, Tr::Arbitrary, Tr::TryFrom, Tr::Into, Tr::Display, Tr::FromStr, Tr::Serialize, Tr::Deserialize];
-        out.push(Subj { decl: d, tag: "float/arb/finite".into(), serde_full: false });
+        out.push(Subj { decl: d, tag: "float/arb/finite".into(), serde_full: true });
     }
 }
 
@@ -696,9 +710,12 @@ pub fn string_subjects(tier: Tier, out: &mut Vec<Subj>) {
                 push(sl, &vls[(i * 2) % vls.len()], out, &mut n);
                 push(sl, &vls[(i * 2 + 1 + i / 17) % vls.len()], out, &mut n);
             }
+            // every validator list also with NO sanitizer (the stored value is the raw input: conversions
+            // must not "optimise" on the raw text) and once more with a rotating non-empty sanitizer list
             for (j, vl) in vls.iter().enumerate() {
-                if j >= 2 * sls.len() % vls.len() {
-                    push(&sls[(j * 5 + 3) % sls.len()], vl, out, &mut n);
+                push(&sls[0], vl, out, &mut n);
+                if j % 2 == 0 {
+                    push(&sls[1 + (j * 5 + 3) % (sls.len() - 1)], vl, out, &mut n);
                 }
             }
         }
